@@ -23,6 +23,11 @@
 (*              position, cleanly (FIN) or abruptly (RST).  The follower's client must notice a  *)
 (*              missing end marker; the HTTP handler, which has already sent "200" with the      *)
 (*              first byte, must abort the response when the transfer fails later.               *)
+(*   failure of the PRODUCER after streaming began (read error of the file copy, failing dump    *)
+(*              query): the units written so far are in the stream; the end marker (gzip trailer) *)
+(*              may only be written when production was complete, and the failure must be the    *)
+(*              result of the producing function -- otherwise the receiver cannot tell a short   *)
+(*              stream from a complete backup.                                                   *)
 (*                                                                                               *)
 (* Every mechanism is a switch (TRUE = the design); one negative control each.                   *)
 EXTENDS Integers, Sequences, FiniteSets, TLC
@@ -36,7 +41,9 @@ CONSTANTS MaxWrites,            \* bound on transfers
           DumpInOneReadTxn,     \* the SQL dump reads schema and all tables in one read transaction
           BackupSingleStep,     \* the online backup copies all pages in one step (one read transaction)
           StreamEndDetected,    \* the follower's client recognises the end marker also when it passes the compressed stream through
-          AbortAfterPartial     \* an error after the first body byte aborts the HTTP response
+          AbortAfterPartial,    \* an error after the first body byte aborts the HTTP response
+          EndMarkerOnlyOnSuccess, \* the end marker (gzip trailer) of a compressed stream is written only after complete production
+          CopyErrorReturned     \* a failure of the copy into the stream is the result of the producing function
 
 VARIABLES hist,   \* sequence of database states
           ckpt,   \* number of transfers contained in the main database file (the rest is in the WAL)
@@ -75,6 +82,10 @@ CurrentDuring(H(_), N, n, s, e) == H(n).lo <= e /\ (IF n = N THEN TRUE ELSE H(n 
 SomeState(H(_), N, cont) == \E n \in 1..N : Matches(cont, H(n))
 ConsistentP(H(_), N, s, e, cont) == \E n \in 1..N : Matches(cont, H(n)) /\ CurrentDuring(H, N, n, s, e)
 CompleteP(cont, nobj) == cont.obj = nobj /\ \A t \in TableSet : cont.tab[t] # Missing
+(* what the requester takes the HTTP response for: a backup, unless the status or the transport says otherwise *)
+Answer(status, clean) == IF status = 200 /\ clean THEN "ok" ELSE "error"
+(* a backup whose production failed (or whose stream was cut) is never answered as a backup *)
+FailedIsErrorP(failed, status, clean) == failed => Answer(status, clean) = "error"
 
 -----------------------------------------------------------------------------
 (* ---------- the model ---------- *)
@@ -105,7 +116,7 @@ Begin(f, z, v) ==
   /\ bk.pc = "idle" /\ nbk < MaxBackups
   /\ bk' = [pc |-> CASE f = "binary" -> "presnap" [] f = "sql" -> "dump" [] OTHER -> "online",
             fmt |-> f, compress |-> z, via |-> v, start |-> Applied, end |-> -1, snap |-> -1,
-            cont |-> NoContent, todo |-> Units, cut |-> NoCut, result |-> "none", status |-> 0, clean |-> FALSE]
+            cont |-> NoContent, todo |-> Units, cut |-> NoCut, pfail |-> -1, result |-> "none", status |-> 0, clean |-> FALSE]
   /\ nbk' = nbk + 1
   /\ UNCHANGED <<hist, ckpt, cas, nauto>>
 
@@ -147,25 +158,52 @@ Dump == /\ bk.pc = "dump"
         /\ UNCHANGED <<hist, ckpt, cas, nauto, nbk>>
 
 (* ---- delivery ---- *)
-Local == /\ bk.pc = "produced" /\ bk.via = "leader"
-         /\ bk' = [bk EXCEPT !.pc = "done", !.result = "ok", !.status = 200, !.clean = TRUE, !.end = Applied]
-         /\ UNCHANGED <<hist, ckpt, cas, nauto, nbk>>
-
 Restrict(cont, k) ==      \* only the first k units arrived whole
   [obj |-> IF k >= 1 THEN cont.obj ELSE -1,
    tab |-> [t \in TableSet |-> IF \E j \in 2..k : j <= NUnits /\ Units[j] = t THEN cont.tab[t] ELSE Missing]]
 
+(* ---- failure of the producer after streaming began ---- *)
+(* Production fails when k units have been written into the stream: k = 0 before the first unit, 0 < k < NUnits  *)
+(* between two units, k = NUnits after the last unit but before the end marker.  binary (file copy) and sql      *)
+(* (dump) write the stream while they produce; vacuum / delete stream a temporary file that was produced in one  *)
+(* step.  The deferred release of the gate runs (store.Backup: defer snapshotCAS.End()).                          *)
+ProducerFail(k) ==
+  /\ bk.pc \in {"copy", "dump", "produced"} /\ bk.pfail = -1
+  /\ IF bk.pc = "produced" THEN (k = NUnits \/ bk.fmt \in {"vacuum", "delete"}) ELSE k = NUnits - Len(bk.todo)
+  /\ bk' = [bk EXCEPT !.pc = "produced", !.pfail = k, !.todo = <<>>, !.cont = Restrict(bk.cont, k)]
+  /\ cas' = IF bk.pc = "copy" THEN "free" ELSE cas
+  /\ UNCHANGED <<hist, ckpt, nauto, nbk>>
+
+(* served by the leader itself: the producing function writes straight into the HTTP response *)
+Local == /\ bk.pc = "produced" /\ bk.via = "leader"
+         /\ LET perr == bk.pfail # -1 /\ CopyErrorReturned         \* the producing function returns the failure
+                \* body bytes handed to the HTTP response before the function returned: the units written so far, and
+                \* the end marker if the compressed stream is closed regardless of the failure
+                written == bk.pfail >= 1 \/ (bk.compress /\ ~EndMarkerOnlyOnSuccess)
+                status == IF perr /\ ~written THEN 500 ELSE 200
+                clean == ~perr \/ ~written \/ ~AbortAfterPartial
+            IN bk' = [bk EXCEPT !.pc = "done", !.status = status, !.clean = clean, !.result = Answer(status, clean), !.end = Applied]
+         /\ UNCHANGED <<hist, ckpt, cas, nauto, nbk>>
+
 Remote(cut) ==
   /\ bk.pc = "produced" /\ bk.via = "follower"
+  /\ bk.pfail # -1 => cut = NoCut                \* one fault per backup
   /\ LET whole == IF cut.at = -1 THEN NUnits ELSE IF cut.at = 0 THEN 0 ELSE IF cut.at > NUnits THEN NUnits ELSE cut.at - 1
+         failed == bk.pfail # -1
+         \* the leader ends the (always compressed) stream with the end marker; after a failed production only if it
+         \* closes the compressed stream regardless, or if it never learned of the failure
+         marker == ~failed \/ ~EndMarkerOnlyOnSuccess \/ ~CopyErrorReturned
          \* does the follower's cluster client return an error?
-         \* an uncompressed request gunzips the stream and so checks the end marker anyway
-         cerr == cut.at # -1 /\ (cut.at = 0 \/ cut.kind = "rst" \/ StreamEndDetected \/ ~bk.compress)
-         written == cut.at >= 1 \/ cut.at = -1      \* body bytes may have reached the HTTP client before the failure
+         \* an uncompressed request gunzips the stream and so checks the end marker anyway;
+         \* a stream without end marker ends when the leader closes the connection (like a FIN cut)
+         cerr == \/ cut.at # -1 /\ (cut.at = 0 \/ cut.kind = "rst" \/ StreamEndDetected \/ ~bk.compress)
+                 \/ ~marker /\ (StreamEndDetected \/ ~bk.compress)
+         \* body bytes may have reached the HTTP client before the failure
+         written == IF failed THEN bk.pfail >= 1 ELSE (cut.at >= 1 \/ cut.at = -1)
+         status == IF cerr /\ ~written THEN 500 ELSE 200
+         clean == ~cerr \/ ~written \/ ~AbortAfterPartial
      IN bk' = [bk EXCEPT !.pc = "done", !.cut = cut, !.end = Applied, !.cont = Restrict(bk.cont, whole),
-                         !.status = IF cerr /\ ~written THEN 500 ELSE 200,
-                         !.clean = ~cerr \/ ~written \/ ~AbortAfterPartial,
-                         !.result = IF ~cerr THEN "ok" ELSE IF ~written THEN "error" ELSE IF AbortAfterPartial THEN "error" ELSE "ok"]
+                         !.status = status, !.clean = clean, !.result = Answer(status, clean)]
   /\ UNCHANGED <<hist, ckpt, cas, nauto, nbk>>
 
 Again == /\ bk.pc = "done" /\ bk' = Idle /\ UNCHANGED <<hist, ckpt, cas, nauto, nbk>>
@@ -174,6 +212,7 @@ Next == \/ \E d \in Delta : Write(d)
         \/ AutoSnapshot
         \/ \E f \in Formats, z \in BOOLEAN, v \in {"leader", "follower"} : Begin(f, z, v)
         \/ PreSnapshot \/ TakeGate \/ CopyUnit \/ CopyDone \/ Online \/ Dump
+        \/ \E k \in 0..NUnits : ProducerFail(k)
         \/ Local \/ \E c \in Cuts : Remote(c)
         \/ Again
 Spec == Init /\ [][Next]_vars
@@ -189,8 +228,9 @@ TypeOK == /\ ckpt \in 0..MaxWrites /\ cas \in {"free", "backup"} /\ ckpt <= Appl
 Consistent == Success => ConsistentP(HistAt, Len(hist), bk.start, bk.end, bk.cont)
 (* ... with every object and every table *)
 Complete == Success => CompleteP(bk.cont, NObj)
-(* a cut stream is never reported as a successful backup *)
-CutIsError == (Done /\ bk.cut.at # -1) => bk.result = "error"
+(* a cut stream, or a stream whose production failed, is never reported as a successful backup *)
+CutIsError == Done => /\ bk.result = Answer(bk.status, bk.clean)
+                      /\ FailedIsErrorP(bk.cut.at # -1 \/ bk.pfail # -1, bk.status, bk.clean)
 (* the gate is never left taken *)
 GateReleased == Done => cas = "free"
 =============================================================================
